@@ -42,7 +42,8 @@ ASSUMPTIONS = ["faults are the 11 symbols of the property's alphabet, one per co
 
 L_STATUS = [503, 400, 404, 500]
 N_STATUS = [500, 502, 503]
-B_STATUS = [204, 304]
+B_STATUS = [204, 304, 102, 103]
+EXH_ALPHABET = SP.BASE + ["B102"]      # the interim status has a peer-side sequel of its own (scripted_peer.py)
 EXTRA_CALLS = 3
 
 _FAULT = {"H": "FHealthy", "C": "FHealthyClose", "R": "FRefuse", "X": "FCloseNoReply", "T": "FReset",
@@ -100,7 +101,7 @@ class Main(pipeline.Stream):
         exh = 2 if tier == "quick" else 3
         for kind in ("tcp", "unix"):
             for n in range(0, exh + 1):
-                for script in itertools.product(SP.BASE, repeat=n):
+                for script in itertools.product(EXH_ALPHABET, repeat=n):
                     cases.append(self._case(kind, script))
         n_rand, maxlen = (150, 6) if tier == "quick" else (1500, 8)
         for _ in range(n_rand):
